@@ -1,4 +1,183 @@
-//! the same scripts over a real hyper/h2 connection (filled in below)
+//! Thorough tier, kind `h2.*`: the same call scripts over a REAL hyper HTTP/2 client connection
+//! and a REAL hyper HTTP/2 server connection joined by `tokio::io::duplex(256)`, with small flow
+//! control windows so that bodies are fragmented and interleaved by h2 itself.  The schedule is
+//! not controlled, therefore only the final observables are compared with the model
+//! (`obs_call_h2`), and metadata maps are compared on the names the case itself uses (hyper adds
+//! `date`, `content-length`, ... of its own).
 use crate::*;
-pub fn run_case(_out: &mut Out, _kind: &str, _c: &CallCase) {}
-pub fn run_all(_out: &mut Out, _r: &mut Rng) {}
+use hyper_util::rt::{TokioExecutor, TokioIo};
+use std::time::Duration;
+
+struct H2Svc(hyper::client::conn::http2::SendRequest<tonic::body::Body>);
+impl tower_service::Service<http::Request<tonic::body::Body>> for H2Svc {
+    type Response = http::Response<hyper::body::Incoming>;
+    type Error = hyper::Error;
+    type Future = Pin<Box<dyn Future<Output = Result<Self::Response, hyper::Error>> + Send>>;
+    fn poll_ready(&mut self, cx: &mut Context<'_>) -> Poll<Result<(), hyper::Error>> {
+        self.0.poll_ready(cx)
+    }
+    fn call(&mut self, req: http::Request<tonic::body::Body>) -> Self::Future {
+        Box::pin(self.0.send_request(req))
+    }
+}
+
+async fn one_call(c: &CallCase, h: H) -> Result<ClientResult, String> {
+    let (cio, sio) = tokio::io::duplex(256);
+    let shape = c.shape;
+    let server = tokio::spawn(async move {
+        let svc = hyper::service::service_fn(move |req: http::Request<hyper::body::Incoming>| {
+            let h = h.clone();
+            async move { Ok::<_, std::convert::Infallible>(serve(shape, h, req).await) }
+        });
+        let _ = hyper::server::conn::http2::Builder::new(TokioExecutor::new())
+            .max_frame_size(16384)
+            .initial_stream_window_size(61)
+            .initial_connection_window_size(127)
+            .serve_connection(TokioIo::new(sio), svc)
+            .await;
+    });
+    let (send, conn) = hyper::client::conn::http2::Builder::new(TokioExecutor::new())
+        .initial_stream_window_size(53)
+        .initial_connection_window_size(101)
+        .handshake::<_, tonic::body::Body>(TokioIo::new(cio))
+        .await
+        .map_err(|e| format!("handshake: {}", e))?;
+    let conn = tokio::spawn(async move {
+        let _ = conn.await;
+    });
+    let r = client_side_origin(c, H2Svc(send), Some(http::Uri::from_static("http://verif.test"))).await;
+    conn.abort();
+    server.abort();
+    Ok(r)
+}
+
+fn user_keys(c: &CallCase) -> Vec<String> {
+    let mut ks: Vec<String> = vec![];
+    let mut add = |md: &Md| {
+        for (k, _) in md {
+            if !RESERVED.contains(&k.as_str()) && !ks.contains(k) {
+                ks.push(k.clone());
+            }
+        }
+    };
+    add(&c.md);
+    match &c.handler {
+        Handler::Err(s) => add(&s.md),
+        Handler::Ok(md, items) => {
+            add(md);
+            for i in items {
+                if let Item::Err(s) = i {
+                    add(&s.md);
+                }
+            }
+        }
+    }
+    ks
+}
+fn restrict(m: &HeaderMap, keys: &[String]) -> HeaderMap {
+    let mut out = HeaderMap::new();
+    for (k, v) in m.iter() {
+        if keys.iter().any(|x| x == k.as_str()) {
+            out.append(k.clone(), v.clone());
+        }
+    }
+    out
+}
+fn restrict_status(s: &Status, keys: &[String]) -> Status {
+    Status::with_details_and_metadata(s.code(), s.message().to_string(), Bytes::copy_from_slice(s.details()), MetadataMap::from_headers(restrict(&s.metadata().clone().into_headers(), keys)))
+}
+fn restrict_end(e: &End, keys: &[String]) -> End {
+    match e {
+        End::Ok => End::Ok,
+        End::Err(s) => End::Err(restrict_status(s, keys)),
+    }
+}
+
+pub fn run_case(out: &mut Out, kind: &str, c: &CallCase) {
+    let seen = Arc::new(Mutex::new(Seen::NotCalled));
+    let h = H { handler: Arc::new(c.handler.clone()), seen: seen.clone() };
+    let rt = tokio::runtime::Builder::new_current_thread().enable_time().build().unwrap();
+    let res = rt.block_on(async { tokio::time::timeout(Duration::from_secs(20), one_call(c, h)).await });
+    drop(rt);
+    let seen = seen.lock().unwrap().clone();
+    let keys = user_keys(c);
+    let fuel = 16 + c.req.len() + match &c.handler { Handler::Ok(_, i) => i.len(), _ => 0 };
+    let hexpr = match &c.handler {
+        Handler::Ok(md, items) => format!("(inl ({}, {}))", coq_hm(&metadata_of(md).into_headers()), coq_list(items, |i| item_coq(i))),
+        Handler::Err(s) => format!("(inr {})", st_coq(s)),
+    };
+    let req: Vec<Item> = if c.req_streaming() { c.req.clone() } else { vec![Item::Ok(first_req_msg(c))] };
+    let model = format!(
+        "obs_call_h2 {} {} {} {} {} {}",
+        coq_list(&keys, |k| coq_bytes(k.as_bytes())),
+        c.shape,
+        coq_hm(&metadata_of(&c.md).into_headers()),
+        coq_list(&req, |i| item_coq(i)),
+        hexpr,
+        fuel
+    );
+    let (obs, oracle) = match res {
+        Err(_) => (Tr::L(vec![Tr::L(vec![Tr::n(8u8)]), Tr::L(vec![Tr::n(8u8)])]), Some("the call over h2 did not complete within 20 s".to_string())),
+        Ok(Err(e)) => (Tr::L(vec![Tr::L(vec![Tr::n(9u8)]), Tr::L(vec![Tr::n(9u8)])]), Some(e)),
+        Ok(Ok(r)) => {
+            let o = if in_domain(c) { judge(c, &r, &seen) } else { None };
+            let rr = match &r {
+                ClientResult::Err(s) => ClientResult::Err(restrict_status(s, &keys)),
+                ClientResult::Unary(md, m) => ClientResult::Unary(restrict(md, &keys), m.clone()),
+                ClientResult::Stream(md, ms, e) => ClientResult::Stream(restrict(md, &keys), ms.clone(), restrict_end(e, &keys)),
+            };
+            let ss = match &seen {
+                Seen::NotCalled => Seen::NotCalled,
+                Seen::Unary(md, m) => Seen::Unary(restrict(md, &keys), m.clone()),
+                Seen::Stream(md, ms, e) => Seen::Stream(restrict(md, &keys), ms.clone(), restrict_end(e, &keys)),
+            };
+            (Tr::L(vec![result_tr_pub(&rr), seen_tr_pub(&ss)]), o)
+        }
+    };
+    describe(out, "h2", c);
+    out.push(vcommon::Case { kind: kind.to_string(), input: case_json(c), model, impl_obs: obs, oracle, nontrivial: true });
+}
+
+pub fn run_all(out: &mut Out, r: &mut Rng) {
+    for shape in 0..4u8 {
+        for code in 1..17u32 {
+            run_case(out, "h2.early", &plain(gen_case(r, shape, 0, Some((0, code)), true, false)));
+            if shape >= 2 {
+                for k in [0usize, 1, 3, 5] {
+                    let p = (code as usize + k) % (k + 1);
+                    run_case(out, "h2.stream_err", &plain(gen_case(r, shape, k, Some((p, code)), false, false)));
+                }
+            }
+        }
+        for k in 0..6usize {
+            for _ in 0..8 {
+                run_case(out, "h2.ok", &plain(gen_case(r, shape, k, None, false, false)));
+            }
+        }
+        // larger payloads, so that h2 flow control really cuts the bodies
+        for _ in 0..10 {
+            let mut c = plain(gen_case(r, shape, 3, None, false, false));
+            for i in c.req.iter_mut() {
+                if let Item::Ok(m) = i {
+                    *m = r.bytes(700);
+                }
+            }
+            if let Handler::Ok(_, items) = &mut c.handler {
+                for i in items.iter_mut() {
+                    if let Item::Ok(m) = i {
+                        *m = r.bytes(900);
+                    }
+                }
+            }
+            run_case(out, "h2.big", &c);
+        }
+    }
+}
+/// the in-process cut / pending lists have no meaning over a real connection
+fn plain(mut c: CallCase) -> CallCase {
+    c.qcuts = vec![];
+    c.qpend = vec![];
+    c.pcuts = vec![];
+    c.ppend = vec![];
+    c
+}
